@@ -305,8 +305,13 @@ PROPS["C09"]["mc"] = {"quick": [alg("CastAlgs.tla", "CastAlgs_%d.cfg" % i, worke
                       "thorough": [alg("CastAlgs.tla", "CastAlgs_%d.cfg" % i, workers=2) for i in range(1, 14)]}
 PROPS["C15"]["mc"] = {"quick": [alg("SliceAlgs.tla", "SliceAlgs_%d.cfg" % i, workers=4) for i in (2, 4, 5)],
                       "thorough": [alg("SliceAlgs.tla", "SliceAlgs_%d.cfg" % i, workers=8) for i in range(1, 7)]}
+POW_PROBES = [alg("PowAlgs.tla", "PowAlgs_probe_%s.cfg" % v, expect_violation=v, workers=4) for v in ("NoEarlyNone", "NoSignFlip", "NoMinPower", "NoDeepLog")]
+PROPS["C08"]["mc"] = {"quick": [alg("PowAlgs.tla", "PowAlgs_6.cfg", workers=4), alg("PowAlgs.tla", "PowAlgs_8.cfg")] + POW_PROBES[:2],
+                      "thorough": [alg("PowAlgs.tla", "PowAlgs_6.cfg", workers=4), alg("PowAlgs.tla", "PowAlgs_8.cfg"), alg("PowAlgs.tla", "PowAlgs_10.cfg", workers=10)] + POW_PROBES}
 for _p in ("C14", "C19"):
     PROPS[_p]["mc"] = {"quick": [], "thorough": [{"dir": "mc", "module": "MC_Float.tla", "cfg": "MC_Float_6.cfg", "workers": 8, "timeout": 3000, "xmx": "6g"}]}
+# AsPrimitive::as_ equals the As cast (C19): the cast drivers record the AsPrimitive forms next to As / CastFrom
+PROPS["C19"]["extra"] = {"quick": [("conv", "C09", [64])], "thorough": [("conv", "C09", [8, 24, 64, 96, 192])]}
 L2MC = {"dir": "mc", "module": "MC_L2.tla", "cfg": "MC_L2_b4.cfg", "workers": 6, "timeout": 3000}
 
 BEH_MODES = ["debug", "release"]
